@@ -21,7 +21,7 @@ def jobs(rng, thorough):
 
 
 def run(ctx: core.Ctx):
-    ctx.lean_stage(extra_props=("C06b", "C07a", "Tie"))
+    ctx.lean_stage(extra_props=("C06b", "C07a", "C07b", "Tie"))
     js = []
     results = b2check.run_b2(ctx, lambda rng, th: js.extend(jobs(rng, th)) or js, ["C07", "L5run", "APIrun"], label="api initialisation")
     b2check.l5_fold(ctx, results, "YncaApi.initialize()")
